@@ -157,6 +157,50 @@ def run(rep, thorough, pid="C08"):
             except Exception as ex:
                 bad(f"request with tag {e['tag']!r} emitted by {e['owner']} ({e['file']}:{e['line']}) towards {cname} raised {type(ex).__name__}: {ex}",
                     {"emission": e, "target": cname})
+    # tags travel with the water: what is pushed with a tag over an arc that queues requests (QueueArc, DecayArc; an
+    # AltQueueArc / DecayArcAlt pools what it carries and is documented to have no tags) reaches the far end with that tag,
+    # at once (no travel time) or when it is due
+    class Spy(Node):
+        def __init__(self, name):
+            super().__init__(name)
+            self.seen = []
+
+        def push_check(self, vqip=None, tag="default"):
+            return {"volume": 1e9, "phosphate": 0.0, "temperature": 0.0}
+
+        def push_set(self, vqip, tag="default"):
+            if vqip["volume"] > 0:
+                self.seen.append(tag)
+            return self.empty_vqip()
+    stats["tag_probes"] = 0
+    tags = sorted({e["tag"] for e in tables["emissions"] if e["direction"] == "push"} | {"default"})
+    for tg in tags:
+        tag = tuple(tg.split("/")) if "/" in tg else tg
+        for aname in ("Arc", "PushArc", "SewerArc", "WeirArc", "QueueArc", "DecayArc"):
+            for nt in ((0, 1, 2) if aname in ("QueueArc", "DecayArc") else (0,)):
+                try:
+                    with contextlib.redirect_stdout(io.StringIO()):
+                        src = Node(name="src")
+                        src.t = 0
+                        src.data_input_dict = {("temperature", 0): 11.0}
+                        spy = Spy("spy")
+                        kw = dict(name="a", in_port=src, out_port=spy, capacity=100.0)
+                        if aname in ("QueueArc", "DecayArc"):
+                            kw["number_of_timesteps"] = nt
+                        if aname == "DecayArc":
+                            kw["decays"] = {"phosphate": {"constant": 0.01, "exponent": 1.001}}
+                        arc = getattr(A, aname)(**kw)
+                        arc.send_push_request(dict(offer), tag=tag)
+                        for _ in range(nt):
+                            arc.end_timestep()
+                            arc.send_push_request({"volume": 1.0, "phosphate": 0.0, "temperature": 12.0})     # (what is due travels with the next push)
+                    stats["tag_probes"] += 1
+                    rep.add_eval(("tag", tg, aname, nt), nontrivial=True)
+                    if not spy.seen or spy.seen[0] != tag or any(t != "default" for t in spy.seen[1:]):
+                        bad(f"{offer['volume']} pushed with tag {tg!r} over a {aname} (travel time {nt}) reached the far end with tags {spy.seen}",
+                            {"tag": tg, "arc": aname, "number_of_timesteps": nt})
+                except Exception as ex:
+                    bad(f"push with tag {tg!r} over a {aname} (travel time {nt}) raised {type(ex).__name__}: {ex}", {"tag": tg, "arc": aname})
     constants.set_default_pollutants()
     rep.monitor[f"{pid}_routes"] = stats
     return {}
